@@ -21,6 +21,7 @@ import (
 	"fmt"
 	"io"
 	"io/ioutil"
+	"os"
 	"sort"
 	"sync"
 	"time"
@@ -280,7 +281,7 @@ type vC01Call struct {
 }
 
 type vC01Ev struct {
-	Kind   string     `json:"k"` // apply crash snapreq persist restore restart ack obs trk conf
+	Kind   string     `json:"k"` // apply crash snapreq persist restore restart ack obs trk conf offline
 	Node   int        `json:"n"`
 	Idx    uint64     `json:"i,omitempty"`    // raft index (apply/crash), snapshot raft index (persist/restore)
 	Hash   string     `json:"h,omitempty"`    // content hash (persist/restore)
@@ -741,6 +742,71 @@ func (r *vC01Rig) observeReady(n *vC01Node, idx uint64) {
 	r.trace[k].PeerOk = n.raft.AppliedIndex() == n.raft.LastIndex()
 }
 
+// observeOffline records what the real OfflineState returns for node n's data: the newest complete snapshot of n's store
+// is copied into a data folder of its own (hashicorp's file snapshot store, as consensus/raft opens it) and OfflineState
+// is called on that folder. Atomic with respect to every FSM call. The model knows the snapshots a replica persisted
+// itself, not the ones it was sent (InstallSnapshot also writes the leader's snapshot into the follower's store): when
+// the newest snapshot of the store is not the last one this replica persisted, nothing is recorded ("foreign").
+func (r *vC01Rig) observeOffline(n *vC01Node) string {
+	r.mu.Lock()
+	defer r.mu.Unlock()
+	meta, data := n.snaps.newest()
+	var last *vC01Ev
+	for i := range r.trace {
+		if r.trace[i].Kind == "persist" && r.trace[i].Node == n.idx {
+			last = &r.trace[i]
+		}
+	}
+	if (meta == nil) != (last == nil) {
+		return "foreign"
+	}
+	if meta != nil && (meta.Index != last.Idx || vC01Hash(data) != last.Hash) {
+		return "foreign"
+	}
+	dir, err := ioutil.TempDir("", "vc01-offline")
+	if err != nil {
+		return "tempdir: " + err.Error()
+	}
+	defer os.RemoveAll(dir)
+	if meta != nil {
+		fs, err := hraft.NewFileSnapshotStore(dir, RaftMaxSnapshots, ioutil.Discard)
+		if err != nil {
+			return "file store: " + err.Error()
+		}
+		sink, err := fs.Create(meta.Version, meta.Index, meta.Term, meta.Configuration, meta.ConfigurationIndex, n.trans)
+		if err != nil {
+			return "file store create: " + err.Error()
+		}
+		if _, err := sink.Write(data); err != nil {
+			sink.Cancel()
+			return "file store write: " + err.Error()
+		}
+		if err := sink.Close(); err != nil {
+			return "file store close: " + err.Error()
+		}
+	}
+	cfg := &Config{}
+	cfg.Default()
+	cfg.DataFolder = dir
+	st, err := OfflineState(cfg, inmem.New())
+	if err != nil {
+		r.trace = append(r.trace, vC01Ev{Kind: "offline", Node: n.idx, Ok: false, Hash: err.Error()})
+		return "error"
+	}
+	pins, err := st.List(context.Background())
+	if err != nil {
+		r.trace = append(r.trace, vC01Ev{Kind: "offline", Node: n.idx, Ok: false, Hash: err.Error()})
+		return "error"
+	}
+	ev := vC01Ev{Kind: "offline", Node: n.idx, Ok: true}
+	for _, p := range pins {
+		ev.Pins = append(ev.Pins, vC01Render(p))
+	}
+	sort.Slice(ev.Pins, func(i, j int) bool { return ev.Pins[i].Cid < ev.Pins[j].Cid })
+	r.trace = append(r.trace, ev)
+	return "ok"
+}
+
 func (r *vC01Rig) observeAll() {
 	for _, n := range r.nodes {
 		if n.started {
@@ -780,14 +846,19 @@ func (r *vC01Rig) recordCalls(want []int) {
 }
 
 // ---------------------------------------------------------------------------
-// snapshot store: in memory, keeps the newest COMPLETE snapshot. (hashicorp's InmemSnapshotStore makes a snapshot
-// visible at Create, before Persist has written it, so a concurrent InstallSnapshot can ship an empty snapshot
-// labelled with the new index; the file store used in production publishes a snapshot only when it is closed.)
+// snapshot store: in memory, with the two properties of the file store used in production (hashicorp's FileSnapshotStore)
+// that matter here: a snapshot becomes visible only when it is COMPLETE (hashicorp's InmemSnapshotStore makes it visible at
+// Create, before Persist has written it, so a concurrent InstallSnapshot can ship an empty snapshot labelled with the new
+// index), and the NEWEST snapshot is the one with the highest (term, index) - snapMetaSlice.Less of file_snapshot.go -, not
+// the one that was closed last: a snapshot of this replica that is persisted after a snapshot with a higher index was
+// installed stays behind it. Older snapshots stay readable by ID (the file store retains RaftMaxSnapshots = 5).
 // ---------------------------------------------------------------------------
 
 type vC01SnapStore struct {
 	mu     sync.Mutex
 	latest *vC01SnapSink
+	all    map[string]*vC01SnapSink
+	opened *vC01SnapSink // the snapshot handed out by the last Open: the one FSM.Restore is about to be given
 	n      int
 }
 
@@ -823,11 +894,34 @@ func (s *vC01SnapStore) List() ([]*hraft.SnapshotMeta, error) {
 func (s *vC01SnapStore) Open(id string) (*hraft.SnapshotMeta, io.ReadCloser, error) {
 	s.mu.Lock()
 	defer s.mu.Unlock()
-	if s.latest == nil || s.latest.meta.ID != id {
+	k := s.all[id]
+	if k == nil {
 		return nil, nil, fmt.Errorf("snapshot %s not found", id)
 	}
+	s.opened = k
+	m := k.meta
+	return &m, ioutil.NopCloser(bytes.NewReader(append([]byte{}, k.buf.Bytes()...))), nil
+}
+
+// openedIndex: the Raft index of the snapshot handed out by the last Open (0 if none)
+func (s *vC01SnapStore) openedIndex() uint64 {
+	s.mu.Lock()
+	defer s.mu.Unlock()
+	if s.opened == nil {
+		return 0
+	}
+	return s.opened.meta.Index
+}
+
+// newest: metadata and bytes of the newest complete snapshot (nil if none)
+func (s *vC01SnapStore) newest() (*hraft.SnapshotMeta, []byte) {
+	s.mu.Lock()
+	defer s.mu.Unlock()
+	if s.latest == nil {
+		return nil, nil
+	}
 	m := s.latest.meta
-	return &m, ioutil.NopCloser(bytes.NewReader(append([]byte{}, s.latest.buf.Bytes()...))), nil
+	return &m, append([]byte{}, s.latest.buf.Bytes()...)
 }
 
 func (k *vC01SnapSink) Write(p []byte) (int, error) { return k.buf.Write(p) }
@@ -837,7 +931,13 @@ func (k *vC01SnapSink) Close() error {
 	if !k.done {
 		k.done = true
 		k.meta.Size = int64(k.buf.Len())
-		k.store.latest = k
+		if k.store.all == nil {
+			k.store.all = map[string]*vC01SnapSink{}
+		}
+		k.store.all[k.meta.ID] = k
+		if l := k.store.latest; l == nil || k.meta.Term > l.meta.Term || (k.meta.Term == l.meta.Term && k.meta.Index >= l.meta.Index) {
+			k.store.latest = k
+		}
 	}
 	return nil
 }
@@ -979,10 +1079,7 @@ func (g *vC01Guard) Restore(rc io.ReadCloser) error {
 	if err != nil {
 		return err
 	}
-	idx := uint64(0)
-	if l, _ := g.node.snaps.List(); len(l) > 0 {
-		idx = l[0].Index
-	}
+	idx := g.node.snaps.openedIndex() // hashicorp/raft opens the snapshot by ID right before it hands it to FSM.Restore
 	err = g.inner.Restore(ioutil.NopCloser(bytes.NewReader(b)))
 	g.rig.restores++
 	if g.rig.restores > 60 {
